@@ -83,6 +83,12 @@ def run_history(seq):
         cfg = rf.Cfg(n=N, d=D, fc=RF_FC, sc=RF_SC, start=md.first_of_ts(T0 + 6, N, D), cont=False)
         rfw = rf.open_writer(drf, chdir, cfg)
         rfw.rf_write(rf.make_values(cfg, seed, cfg["start"], 5))  # first files exist, one still open as tmp
+        # a second top-level directory holding some other channel only
+        second_top = os.path.join(os.path.dirname(top), "second_disk")
+        os.makedirs(os.path.join(second_top, "chZ"))
+        zw = rf.open_writer(drf, os.path.join(second_top, "chZ"), rf.Cfg(**dict(cfg, uuid="other-channel")))
+        zw.rf_write(rf.make_values(cfg, seed, cfg["start"], 3))
+        zw.close()
         mdw = drf.DigitalMetadataWriter(mdir, MD_SC, MD_FC, N, D, "metadata")
         written = {}
         next_md = md.first_of_ts(T0 + 7, N, D) + 1  # 7 s into a 10 s subdirectory
@@ -182,7 +188,9 @@ def run_history(seq):
                 if snapshot(top) != before:
                     bad({"class": "reading_changed_tree", "reader": "rf_constructor"}, "step %d" % step, step=step)
             # a brand-new reader of each kind after every call, plus every live one
-            live = list(readers) + [("md", drf.DigitalMetadataReader(mdir), "fresh"), ("rf", drf.DigitalRFReader(top), "fresh")]
+            # (the last one: one reader over two top-level directories, the channel's metadata not being under the first)
+            live = list(readers) + [("md", drf.DigitalMetadataReader(mdir), "fresh"), ("rf", drf.DigitalRFReader(top), "fresh"),
+                                    ("rf", drf.DigitalRFReader([second_top, top]), "fresh")]
             for kind, obj, born in live:
                 res = query_pass(kind, obj, step, "%s born %s" % (kind, born))
                 if res is None or not written:
